@@ -61,6 +61,15 @@ pub mod text;
 mod tokio;
 pub mod util;
 
+// Verification hook (off by default): under Kani with the `memoization` feature, the memo table's type
+// (`HashMap` below, `hashbrown::hash_map::Entry` in combinator.rs) is the finite-map contract kept with the
+// harness sources (the verifier cannot get through the real hash table). Not compiled in any ordinary build.
+#[cfg(all(kani, feature = "memoization"))]
+#[allow(missing_docs, dead_code, unused, unexpected_cfgs, clippy::all)]
+mod verif_hashmodel {
+    include!(concat!(env!("CHUMSKY_VERIF_DIR"), "/hashmodel.rs"));
+}
+
 /// Commonly used functions, traits and types.
 ///
 /// *Listen, three eyes,” he said, “don’t you try to outweird me, I get stranger things than you free with my breakfast
@@ -107,7 +116,10 @@ use core::{
     panic::Location,
     str::FromStr,
 };
+#[cfg(not(all(kani, feature = "memoization")))]
 use hashbrown::HashMap;
+#[cfg(all(kani, feature = "memoization"))]
+use verif_hashmodel::HashMap;
 #[cfg(feature = "serde")]
 use serde::{de::Visitor, Deserialize, Deserializer, Serialize, Serializer};
 
